@@ -61,6 +61,14 @@ CrossEq(A, a, B, b) ==     \* subtree a of state A is structurally equal to subt
   /\ Range(A.attrs[a]) = Range(B.attrs[b]) /\ Range(A.extras[a]) = Range(B.extras[b])
   /\ Len(A.kids[a]) = Len(B.kids[b]) /\ \A i \in 1..Len(A.kids[a]) : CrossEq(A, A.kids[a][i], B, B.kids[b][i])
 
+(* the copy of every node of a substituted block keeps the namespace bindings of its source node - except for prefixes the
+   new parent binds and the top of the block does not: attaching the block pushes those down the whole block (C13) *)
+RECURSIVE CrossNs(_, _, _, _, _)
+CrossNs(A, a, B, b, exempt) ==
+  /\ \A bd \in B.ns[b] : bd \in A.ns[a] \/ bd[1] \in exempt
+  /\ Len(A.kids[a]) = Len(B.kids[b]) /\ \A i \in 1..Len(A.kids[a]) : CrossNs(A, A.kids[a][i], B, B.kids[b][i], exempt)
+Bound(S, n) == {bd[1] : bd \in S.ns[n]}
+
 ExpandClauses(e) ==
   LET pre == Load(e.pre)  post == Load(e.post)  root == e.root
       tree == Desc(pre.kids, root)
@@ -81,6 +89,9 @@ ExpandClauses(e) ==
                    /\ Len(post.kids[p]) = Len(s)
                    /\ \A i \in 1..Len(s) : IF s[i][1] = "old" THEN post.kids[p][i] = s[i][2]
                                            ELSE post.kids[p][i] \in fresh /\ CrossEq(post, post.kids[p][i], pre, s[i][2])
+      nsOK(p) == LET s == slots(p) IN
+                 Len(post.kids[p]) = Len(s) => \A i \in 1..Len(s) : s[i][1] = "new" /\ post.kids[p][i] \in fresh
+                                               => CrossNs(post, post.kids[p][i], pre, s[i][2], Bound(pre, p) \ Bound(pre, s[i][2]))
   IN IF ~e.precondition THEN {"HARNESS-precondition"}
      ELSE IF shouldFail THEN
           (IF e.raised = "ValueError" THEN {} ELSE IF e.raised = "" THEN {"did-not-raise-ValueError"} ELSE {"raised-other-than-ValueError"})
@@ -88,6 +99,7 @@ ExpandClauses(e) ==
      ELSE (IF e.raised = "" THEN {} ELSE {"raised"})
        \cup (IF e.raised = "" /\ \E n \in Desc(post.kids, root) : post.name[n] = "references" THEN {"references-node-left"} ELSE {})
        \cup (IF e.raised = "" /\ ~(\A p \in tree \ refs : kidsOK(p)) THEN {"not-substituted-in-place"} ELSE {})
+       \cup (IF e.raised = "" /\ (\A p \in tree \ refs : kidsOK(p)) /\ ~(\A p \in tree \ refs : nsOK(p)) THEN {"copy-lost-a-namespace-binding"} ELSE {})
        \cup (IF e.raised = "" /\ ~(\A n \in tree \ refs : SameNode(pre, post, n)) THEN {"existing-node-changed"} ELSE {})
        \cup (IF e.raised = "" /\ post.store # (pre.store \ refs) \cup fresh THEN {"registry"} ELSE {})
        \cup (IF e.raised = "" /\ ~NoSharing(post.kids) THEN {"copies-shared"} ELSE {})
